@@ -8,4 +8,6 @@ var Checks = map[string]func(*core.Env){
 	"C16": C16,
 	"C02": C02,
 	"C01": C01,
+	"C03": C03,
+	"C12": C12,
 }
